@@ -22,20 +22,19 @@ def run(quiet=False):
             fh.write("\npub mod verif_controls;\n")
         env = dict(os.environ, AGV_REPO=repo)
         code = ("import sys; sys.path.insert(0, %r)\n"
-                "from agvlib import facts, oblig\n"
+                "from agvlib import facts, oblig, panicfree, report\n"
                 "prog = facts.load()\n"
                 "bad = weak = n = 0\n"
+                "rules = {'assert': 'X.R1', 'call': 'X.R2', 'panic': 'X.R3', 'loop': 'X.R4', 'callee': 'X.R5'}\n"
                 "for p, b in sorted(prog.bodies.items()):\n"
                 "    if '::verif_controls::' not in p or b.kind == 'Closure' or 'promoted' in p: continue\n"
                 "    name = p.split('::')[-1]\n"
                 "    if not name.endswith(('_panics', '_safe')): continue\n"
-                "    bodies = [q for q in prog.closure([p]) if '::verif_controls::' in q and 'promoted' not in q]\n"
-                "    opens = []\n"
-                "    for q in bodies:\n"
-                "        ctx = oblig.Ctx(prog, prog.bodies[q])\n"
-                "        for o in oblig.collect(ctx):\n"
-                "            oblig.discharge(ctx, o)\n"
-                "            if o.verdict == 'OPEN': opens.append('%%s %%s' %% (o.kind, o.desc))\n"
+                "    bodies = sorted(q for q in prog.closure([p]) if '::verif_controls::' in q and 'promoted' not in q)\n"
+                "    res = report.Result('X', 'proof')\n"
+                "    for r in rules.values(): res.rule(r, '', 0)\n"
+                "    panicfree.run_scope(prog, res, panicfree.Scope(prog, bodies, []), rules, ())\n"
+                "    opens = ['%%s' %% v.site for v in res.violations]\n"
                 "    n += 1\n"
                 "    if name.endswith('_panics') and not opens:\n"
                 "        bad += 1; print('UNSOUND  %%s: all obligations discharged although the function can panic' %% name)\n"
